@@ -333,6 +333,15 @@ void TaskScheduler::SplitAndAddTask( uint32_t threadNum_, SubTaskSet subTask_, u
     while( subTask_.partition.start != subTask_.partition.end )
     {
         SubTaskSet taskToAdd = SplitTask( subTask_, rangeToSplit_ );
+        if( 1 == m_NumThreads )
+        {
+            // the calling thread is the only thread, there is no worker which could ever take
+            // the partition out of the pipe again: run it right away
+            AtomicAdd( &subTask_.pTask->m_RunningCount, 1 );
+            taskToAdd.pTask->ExecuteRange( taskToAdd.partition, threadNum_ );
+            AtomicAdd( &subTask_.pTask->m_RunningCount, -1 );
+            continue;
+        }
 
         // add the partition to the pipe
         AtomicAdd( &subTask_.pTask->m_RunningCount, 1 );
